@@ -208,7 +208,9 @@ class Paths:
                 # a fresh object that this function files in a container: from then on it is an element of that container
                 homes = set()
                 for x in sc._own_nodes():
-                    if isinstance(x, (ast.Assign, ast.AnnAssign)) and isinstance(x.value, ast.Name) and x.value.id == name:
+                    chained = isinstance(x, ast.Assign) and len(x.targets) > 1 and any(isinstance(t, ast.Name) and t.id == name for t in x.targets)
+                    if (isinstance(x, (ast.Assign, ast.AnnAssign)) and isinstance(x.value, ast.Name) and x.value.id == name) or chained:
+                        # `self._field = obj` after `obj = Ctor()`, or both at once: `self._field = obj = Ctor()`
                         for t in (x.targets if isinstance(x, ast.Assign) else [x.target]):
                             if isinstance(t, ast.Subscript):
                                 self._busy.add(name)
@@ -288,6 +290,19 @@ class Effects:
             fn = n.ast.func
             if isinstance(fn, ast.Attribute):
                 rt = sc.ty(fn.value)
+                if (rt is None or rt.head in ("Any", "object")) and isinstance(fn.value, ast.Name) and n.env and fn.value.id in n.env and not sc.defs.get(fn.value.id):
+                    # un-annotated parameter of a spliced helper: typed by what the caller passes
+                    env, name = n.env, fn.value.id
+                    for _ in range(6):
+                        caller, arg, cenv = env[name]
+                        rt2 = self.an.scope(caller).ty(arg)
+                        if rt2 is not None and rt2.head not in ("Any", "object"):
+                            rt = rt2
+                            break
+                        if isinstance(arg, ast.Name) and cenv and arg.id in cenv:
+                            env, name = cenv, arg.id
+                            continue
+                        break
                 ck = container_kind(self.an, rt)
                 path = P.of(fn.value)
                 if ck is not None:
